@@ -171,9 +171,10 @@ class YamlDocument(HierDictDocument):
 
             ctx.in_document = yaml.load(s, **self.in_kwargs)
 
-        except (yaml.YAMLError, UnicodeDecodeError) as e:
+        except (yaml.YAMLError, UnicodeDecodeError, LookupError) as e:
             # ParserError is just one of them: the scanner, the reader, the
-            # composer and the constructor have their own.
+            # composer and the constructor have their own. LookupError: the
+            # charset of the request is not an encoding that python knows.
             raise Fault('Client.YamlDecodeError', repr(e))
 
         except (ValueError, TypeError, AttributeError) as e:
